@@ -420,7 +420,8 @@ func writeComputedFieldExpression(w *formatting.IndentedWriter, expression dsl.E
 				self.Visit(t.Target)
 				w.WriteString(")")
 			case *dsl.TypePattern, *dsl.DiscardPattern:
-				self.Visit(t.Target)
+				// the pattern binds nothing: the value of the switch is that of its only case
+				self.Visit(t.Cases[0].Expression)
 			default:
 				panic(fmt.Sprintf("Unexpected pattern type %T", t.Cases[0].Pattern))
 			}
